@@ -17,6 +17,9 @@ def scale_times(prog, k):
     return prog
 
 
+F19 = "F19-single-shot-wake-up-lost-after-earlier-evaluation"
+
+
 class C02:
     id = "C02"
     level = "exploration"
@@ -33,7 +36,7 @@ class C02:
             "runs; the set of cycle times equals the discrete-event reference model's (no dropped, coalesced, early, late or unrequested cycle); child "
             "graph evaluation times equal the enclosing root cycle. non-trivial = >= 2 honoured requests; distinct = distinct (shape, cycle times)")
     assumptions = ["cancelled requests are excluded here (C18 owns them)", "the framework start-up sample of a REF-input node counts as requested by that node"]
-    allow = dict(how=("inline", "nested"))
+    allow = dict(how=("inline", "nested"), sshot=True)
 
     def gen(self, seed):
         rng = random.Random(seed)
@@ -79,10 +82,25 @@ class C02:
             return Outcome(violation=dict(clause="run_threw", detail=ran[0].get("what") if ran else "no ran event"), digest=res.digest, sample=sample)
         v, stats = od.check_wakeups(prog, res.events)
         stats = stats or {}
+        known = None
+        quirks = True
+        if v and any(n["kind"] == "sshot" for n in prog["nodes"]):
+            # known finding F19: a wake-up asked for through SingleShotScheduler is lost when the node is evaluated earlier
+            # because an input ticked. Accepted only if the whole run equals the model in which exactly that happens.
+            mq, qcycles, qevents = dataflow.predicted(prog, quirks="sshot")
+            cycles = [e["t"] for e in res.events if e["k"] == "cyc" and e["g"] == 0]
+            ss_ids = {n["id"] for n in prog["nodes"] if n["kind"] == "sshot"}
+            got = sorted((e["id"], e["t"]) for e in res.events if e["k"] == "ev" and e["id"] in ss_ids)
+            want = sorted((e["id"], e["t"]) for e in qevents if e["k"] == "ev" and e["id"] in ss_ids)
+            if getattr(mq, "sshot_lost", 0) and qcycles == cycles and got == want:
+                known = F19
+                quirks = "sshot"
+                stats = dict(probe_single_shot_lost=mq.sshot_lost)
+                v = None
         if not v:
             v, _ = od.check_eval_order(res.events)
         if not v:
-            m, mcycles, _ = od.predicted(prog)
+            m, mcycles, _ = dataflow.predicted(prog, quirks=quirks)
             cycles = [e["t"] for e in res.events if e["k"] == "cyc" and e["g"] == 0]
             if mcycles != cycles:
                 extra = sorted(set(cycles) - set(mcycles))
@@ -108,8 +126,9 @@ class C02:
         stats["probe_window_one_step"] = 1 if prog["window"][1] == prog["window"][0] + 1 else 0
         stats["probe_far_future"] = 1 if prog["window"][1] - prog["window"][0] > 10 ** 5 else 0
         shape = runner.h64(dataflow.shape_key(prog), cycles)
-        return Outcome(violation=dict(clause=v[0], detail=v[1]) if v else None, stats=stats, digest=res.digest,
-                       nontrivial=stats.get("requests_honoured_in_window", 0) >= 2, sample=sample, shape=shape)
+        viol = dict(clause=v[0], detail=v[1]) if v else (dict(clause="known_class:F19", detail="a SingleShotScheduler wake-up was lost after an earlier input-driven evaluation", known=known) if known else None)
+        return Outcome(violation=viol, stats=stats, digest=res.digest,
+                       nontrivial=stats.get("requests_honoured_in_window", 0) >= 2 or bool(known), sample=sample, shape=shape)
 
     def shrink(self, case):
         for q in dataflow.shrink_program(dataflow.normalise(case["prog"])):
